@@ -515,3 +515,28 @@ def r15(ctx):
 
 
 RULES.append(("C16.R15", "T2", "a session reset clears only what C17.R3 lists (the request sequence number survives) (shared with C17.R3)", r15))
+
+
+def r16(ctx):
+    """'every user request completes': registering an association either succeeds or leaves the map and the scheduling order as they
+    were - in AssociationMap::register every mutation of `map` / `priority` is behind the duplicate-address test, so a refused
+    add_association cannot knock the existing association out of the rotation (its requests would be queued and never started)."""
+    prog = ctx.prog
+    bd = prog.body("master::association::AssociationMap::register")
+    sym = ctx.sym(bd)
+    dup = g_bool(lambda x: mentions_call(x, r"::contains_key$") and mentions_field(x, "map"), False)
+    n = 0
+    for c in bd.calls():
+        cal = c.term.callee or c.term.declared or ""
+        if is_tracing(c.term.macros) or not re.search(r"::(push_back|push_front|insert|retain|remove|clear|pop_front|pop_back|rotate_left|rotate_right|swap_remove_back|drain)$", cal):
+            continue
+        e = sym.call_expr(c.term)
+        if not (mentions_field(e[2][0], "priority") or mentions_field(e[2][0], "map")):
+            continue
+        n += 1
+        ctx.require_guards(bd, c.idx, [("the address is not registered yet", dup)], "register:mutation@%s" % cal.split("::")[-1], "a mutation of the association table")
+    if n < 2:
+        raise AnchorError("AssociationMap::register: mutations %d" % n)
+
+
+RULES.append(("C16.R16", "T2", "a refused registration mutates nothing (every table mutation is behind the duplicate test)", r16))
